@@ -94,12 +94,17 @@ pub struct RowSpec {
 
 #[derive(Clone, Debug, Serialize, Deserialize, PartialEq)]
 pub struct BatchSpec {
-    /// schema kind 0..=3
+    /// schema kind 0..=3: the column set and column types
     pub kind: u8,
+    /// schema variant of the same column set and types: 0 = base, 1 = `host` declared non-nullable,
+    /// 2 = schema-level metadata, 3 = field-level metadata on `host`, 4 = value column declared
+    /// non-nullable.  Variants differ from the base ONLY in nullability flags or metadata.
+    #[serde(default)]
+    pub variant: u8,
     pub rows: Vec<RowSpec>,
 }
 
-pub fn schema_of(kind: u8) -> SchemaRef {
+pub fn schema_of(kind: u8, variant: u8) -> SchemaRef {
     let ts_tz = Field::new("timestamp", DataType::Timestamp(TimeUnit::Nanosecond, Some("UTC".into())), false);
     let ts_i64 = Field::new("timestamp", DataType::Int64, false);
     let fields = match kind {
@@ -129,11 +134,32 @@ pub fn schema_of(kind: u8) -> SchemaRef {
             Field::new("host", DataType::Utf8, true),
         ],
     };
-    Arc::new(Schema::new(fields))
+    let fields: Vec<Field> = fields
+        .into_iter()
+        .map(|f| {
+            let name = f.name().clone();
+            match variant {
+                1 if name == "host" => f.with_nullable(false),
+                4 if name.starts_with("value_") => f.with_nullable(false),
+                3 if name == "host" => {
+                    f.with_metadata([("unit".to_string(), "hostname".to_string())].into_iter().collect())
+                }
+                _ => f,
+            }
+        })
+        .collect();
+    let schema = Schema::new(fields);
+    if variant == 2 {
+        Arc::new(schema.with_metadata([("origin".to_string(), "agent-a".to_string())].into_iter().collect()))
+    } else {
+        Arc::new(schema)
+    }
 }
 
 pub fn build_batch(spec: &BatchSpec) -> RecordBatch {
-    let schema = schema_of(spec.kind);
+    let schema = schema_of(spec.kind, spec.variant);
+    let host_nn = spec.variant == 1;
+    let val_nn = spec.variant == 4;
     let ts: Vec<i64> = spec.rows.iter().map(|r| r.ts).collect();
     let ts_col: ArrayRef = match spec.kind {
         0 | 2 => Arc::new(TimestampNanosecondArray::from(ts).with_timezone("UTC")),
@@ -156,14 +182,26 @@ pub fn build_batch(spec: &BatchSpec) -> RecordBatch {
             .collect::<Vec<Option<&str>>>(),
     ));
     let host: ArrayRef = Arc::new(StringArray::from(
-        spec.rows.iter().map(|r| r.host.map(|h| HOSTS[h as usize % HOSTS.len()])).collect::<Vec<Option<&str>>>(),
+        spec.rows
+            .iter()
+            .map(|r| match r.host {
+                Some(h) => Some(HOSTS[h as usize % HOSTS.len()]),
+                None if host_nn => Some(HOSTS[0]),
+                None => None,
+            })
+            .collect::<Vec<Option<&str>>>(),
     ));
     let mut cols: Vec<ArrayRef> = vec![ts_col, metric];
     if spec.kind == 3 {
-        cols.push(Arc::new(Int64Array::from(spec.rows.iter().map(|r| r.ival).collect::<Vec<Option<i64>>>())));
+        cols.push(Arc::new(Int64Array::from(
+            spec.rows.iter().map(|r| if val_nn { Some(r.ival.unwrap_or(0)) } else { r.ival }).collect::<Vec<Option<i64>>>(),
+        )));
     } else {
         cols.push(Arc::new(Float64Array::from(
-            spec.rows.iter().map(|r| r.fval.map(f64::from_bits)).collect::<Vec<Option<f64>>>(),
+            spec.rows
+                .iter()
+                .map(|r| if val_nn { Some(f64::from_bits(r.fval.unwrap_or(0))) } else { r.fval.map(f64::from_bits) })
+                .collect::<Vec<Option<f64>>>(),
         )));
     }
     cols.push(host);
@@ -327,8 +365,38 @@ pub fn gen_row(rng: &mut Rng, kind: u8, base: i64) -> RowSpec {
 }
 
 pub fn gen_batch(rng: &mut Rng, kind: u8, base: i64, max_rows: usize) -> BatchSpec {
+    gen_batch_v(rng, kind, 0, base, max_rows)
+}
+
+/// a batch of schema (kind, variant); one time in three every nullable cell is filled (a nullable
+/// column WITHOUT real nulls), one time in three at least one label / value cell is null
+pub fn gen_batch_v(rng: &mut Rng, kind: u8, variant: u8, base: i64, max_rows: usize) -> BatchSpec {
     let n = if rng.chance(1, 4) { 1 } else { rng.range_usize(1, max_rows.max(1)) };
-    BatchSpec { kind, rows: (0..n).map(|_| gen_row(rng, kind, base)).collect() }
+    let mut rows: Vec<RowSpec> = (0..n).map(|_| gen_row(rng, kind, base)).collect();
+    match rng.below(3) {
+        0 => {
+            for r in rows.iter_mut() {
+                if r.host.is_none() {
+                    r.host = Some(rng.below(4) as u8);
+                }
+                if kind == 3 {
+                    r.ival = Some(r.ival.unwrap_or(5));
+                } else {
+                    r.fval = Some(r.fval.unwrap_or(1.25f64.to_bits()));
+                }
+            }
+        }
+        1 => {
+            let i = rng.below(n as u64) as usize;
+            rows[i].host = None;
+            if rng.chance(1, 2) {
+                rows[i].fval = None;
+                rows[i].ival = None;
+            }
+        }
+        _ => {}
+    }
+    BatchSpec { kind, variant, rows }
 }
 
 // ------------------------------------------------------------------ budgets ----
